@@ -24,13 +24,19 @@ Clause map
 * the implementation's cut-off (see DIFFERENCES) — `lexScan` and `lexScan_sound`: whatever the scan
   returns is a valid matching candidate and is the documented choice among all candidates of the
   same length (rules 4, 5 and the same-length part of rule 2).
+* precedence inside a token (`token(prec(p0, choice(prec(p1, r1), …)))`) — `Token.alts`, `scanP` /
+  `lexScanP`, and `lexScanP_eq_lexScan` (without inner precedences it is `lexScan`).  The documented
+  rules do not say what inner precedences mean; sets containing such tokens are compared with
+  `lexScanP` (correspondence) and are not judged against `refToken`.
 * immediate tokens (`token.immediate`) — `validAt`: after skipped extras an immediate token is not a
   candidate; every theorem about `refToken` / `lexScan` is parametric in the valid-token predicate and
   therefore applies to `validAt toks valid off`.
 * "extras are skipped between tokens" — `refTokenize`, `refTokenize_progress` (the result does not
   depend on the fuel once it exceeds the input length) and `tokenize_increasing` (every token is
   non-empty and starts at or after the end of the previous one).
-* "a keyword is recognised only when the whole word equals it" — `keyword_whole_word`.
+* "a keyword is recognised only when the whole word equals it" — `keyword_whole_word`;
+  per parse state (keywords not valid everywhere, reserved words): `withKeywordsIn`, `keyword_in_state`,
+  `keyword_not_ok_stays_word`.
 
 DIFFERENCES between the documented order and the generated lexer (written down as the brief asks;
 the correspondence check compares the real lexer with `lexScan`, and counts how often `lexScan`
@@ -243,6 +249,25 @@ theorem lexScan_eq_refToken_of_longest (toks : List Token) (valid : Nat → Bool
   · exact hc
   · have := hlong c (lexScan_sound toks valid input c hc).1; omega
 
+/-- `lexScanP_eq_lexScan`: the scan generalised to precedences INSIDE tokens (`scanP`: the transitions
+of an alternative carry that alternative's precedence, the completed token its own) is the scan of all
+the theorems above whenever no token has inner precedences — so those theorems describe `lexScanP`
+on every ordinary token set, and `lexScanP` is what the check compares the real lexer with when a
+set does contain `token(choice(prec(p1, …), prec(p2, …)))`. -/
+theorem lexScanP_eq_lexScan (toks : List Token) (valid : Nat → Bool) (hU : ∀ i, (tokAt toks i).alts = [])
+    (input : List Nat) : lexScanP toks valid input = lexScan toks valid input := by
+  unfold lexScanP lexScan
+  have hrs : toks.map (fun t => (altsOf t).map (·.2)) = (toks.map (·.re)).map (fun r => [r]) := by
+    rw [List.map_map]
+    apply List.map_congr_left
+    intro t ht
+    obtain ⟨i, hi, rfl⟩ := List.getElem_of_mem ht
+    have := hU i
+    simp only [tokAt, List.getD_eq_getElem?_getD, List.getElem?_eq_getElem hi, Option.getD_some] at this
+    simp [altsOf, this]
+  rw [hrs]
+  exact scanP_eq_scan toks valid hU input _ 0 none none
+
 /-- `refTokenize_progress`: any fuel above the input length gives the same answer, i.e. the
 tokenizer never stops for lack of fuel (each step consumes at least one character). -/
 theorem refTokenize_progress (choose : Nat → List Nat → Option Cand) (isExtra : Nat → Bool) (input : List Nat)
@@ -321,11 +346,52 @@ theorem keyword_matches_word (toks : List Token) (validKw : Nat → Bool) (main 
   · have := (lexScan_sound toks validKw input (i, n) h2).1
     exact ⟨h1, this.2.1, this.2.2.2.2⟩
 
+/-- `keyword_in_state`: in a parse state, a keyword `i` replaces the word token only when the main lexer
+returned the word token, the keyword lexer (all keywords) matched exactly the same `n` characters, and
+the keyword is valid or reserved in that state (`ok`); otherwise the main lexer's answer stands.  In
+particular a keyword that is neither valid nor reserved in the state is lexed as the word token. -/
+theorem keyword_in_state (main kw : List Nat → Option Cand) (word : Nat) (ok : Nat → Bool) (input : List Nat)
+    (i n : Nat) (h : withKeywordsIn main kw word ok input = some (i, n)) :
+    main input = some (i, n) ∨ (main input = some (word, n) ∧ kw input = some (i, n) ∧ ok i = true) := by
+  unfold withKeywordsIn at h
+  cases hm : main input with
+  | none => simp [hm] at h
+  | some c =>
+    obtain ⟨j, m⟩ := c
+    simp only [hm] at h
+    by_cases hj : j = word
+    · simp only [hj, if_true] at h
+      cases hk : kw input with
+      | none =>
+        simp only [hk, Option.some.injEq, Prod.mk.injEq] at h
+        obtain ⟨rfl, rfl⟩ := h
+        exact Or.inl (by rw [hj])
+      | some d =>
+        obtain ⟨k, l⟩ := d
+        simp only [hk] at h
+        by_cases hl : l = m ∧ ok k = true
+        · simp only [hl, and_self, if_true, Option.some.injEq, Prod.mk.injEq] at h
+          obtain ⟨rfl, rfl⟩ := h
+          exact Or.inr ⟨by rw [hj], by rw [hl.1], hl.2⟩
+        · rw [if_neg hl] at h
+          simp only [Option.some.injEq, Prod.mk.injEq] at h
+          obtain ⟨rfl, rfl⟩ := h
+          exact Or.inl (by rw [hj])
+    · simp only [hj, if_false, Option.some.injEq, Prod.mk.injEq] at h
+      obtain ⟨rfl, rfl⟩ := h
+      exact Or.inl rfl
+
+/-- a keyword that is not acceptable in the state never replaces the word token -/
+theorem keyword_not_ok_stays_word (main kw : List Nat → Option Cand) (word : Nat) (ok : Nat → Bool) (input : List Nat)
+    (n k : Nat) (hm : main input = some (word, n)) (hk : kw input = some (k, n)) (hok : ok k = false) :
+    withKeywordsIn main kw word ok input = some (word, n) := by
+  simp [withKeywordsIn, hm, hk, hok]
+
 /-! ## non-vacuity -/
 
 /-- tokens over `a`=97 `b`=98: 0 = "a" (String), 1 = /a+/ , 2 = /[ab]+/ with precedence 0 -/
 def exToks : List Token :=
-  [ ⟨lit [97], 0, true, false⟩, ⟨plus (chr 97), 0, false, false⟩, ⟨plus (.cls [(97, 98)] false), 0, false, false⟩ ]
+  [ (Token.mk4 (lit [97]) 0 true false), (Token.mk4 (plus (chr 97)) 0 false false), (Token.mk4 (plus (.cls [(97, 98)] false)) 0 false false) ]
 
 example : matchesB (rep (chr 97) 1 2) [97, 97] = true := by decide
 example : Matches (plus (chr 97)) [97, 97] := (deriv_correct _ _).1 (by decide)
@@ -342,7 +408,7 @@ example : refTokenize (fun _ => refToken exToks (fun _ => true)) (fun c => c == 
 
 /-- immediate tokens: 0 = "a", 1 = immediate "b".  `ab` is two tokens, in `a b` the blank rules the
 immediate token out, so no token is found after the blank. -/
-def immToks : List Token := [ ⟨lit [97], 0, true, false⟩, ⟨lit [98], 0, true, true⟩ ]
+def immToks : List Token := [ (Token.mk4 (lit [97]) 0 true false), (Token.mk4 (lit [98]) 0 true true) ]
 example : refTokenize (fun off => refToken immToks (validAt immToks (fun _ => true) off)) (fun c => c == 32) [97, 98] =
     some [(0, 0, 1), (1, 1, 2)] := by decide
 example : refTokenize (fun off => refToken immToks (validAt immToks (fun _ => true) off)) (fun c => c == 32) [97, 32, 98] =
@@ -353,13 +419,13 @@ example : refTokenize (fun off => refToken immToks (validAt immToks (fun _ => tr
 the scan (like the generated lexer, see corpus/c14.txt) returns the longer precedence-0 token,
 because the transition on `b` is shared with the precedence-1 token "abd". -/
 def overtakeToks : List Token :=
-  [ ⟨lit [97], 1, true, false⟩, ⟨lit [97, 98, 100], 1, true, false⟩, ⟨.seq (chr 97) (plus (chr 98)), 0, false, false⟩ ]
+  [ (Token.mk4 (lit [97]) 1 true false), (Token.mk4 (lit [97, 98, 100]) 1 true false), (Token.mk4 (.seq (chr 97) (plus (chr 98))) 0 false false) ]
 theorem overtake_witness :
     refToken overtakeToks (fun _ => true) [97, 98, 98] = some (0, 1) ∧
     lexScan overtakeToks (fun _ => true) [97, 98, 98] = some (2, 3) := by decide
 
 /-- word token 1 = /[a-z]+/ , keyword 0 = "if": `if ` gives the keyword, `ifx` the word -/
-def kwToks : List Token := [ ⟨lit [105, 102], 0, true, false⟩, ⟨plus (.cls [(97, 122)] false), 0, false, false⟩ ]
+def kwToks : List Token := [ (Token.mk4 (lit [105, 102]) 0 true false), (Token.mk4 (plus (.cls [(97, 122)] false)) 0 false false) ]
 example : withKeywords (lexScan kwToks (fun i => i == 1)) (lexScan kwToks (fun i => i == 0)) 1 [105, 102, 32] = some (0, 2) := by decide
 example : withKeywords (lexScan kwToks (fun i => i == 1)) (lexScan kwToks (fun i => i == 0)) 1 [105, 102, 120] = some (1, 3) := by decide
 
